@@ -759,6 +759,52 @@ fn write_project(dir: &Path, p: &Project) {
     for (i, f) in p.ops.iter().enumerate() { std::fs::write(dir.join(format!("ops/q{i}.graphql")), f).unwrap(); }
     std::fs::write(dir.join("graphql.config.yaml"), p.config_yaml()).unwrap();
 }
+/// writes only the SOURCES of a project (schema files named `<prefix><i>.graphql`, operations, config); whatever
+/// generated output already lies in `dir` is left alone.  `lead` is put in front of every source file (a position-only
+/// edit: a `#` comment and blank lines shift every line number without changing any generated TypeScript text).
+fn write_sources(dir: &Path, p: &Project, prefix: &str, lead: &str) {
+    std::fs::create_dir_all(dir.join("schema")).unwrap();
+    std::fs::create_dir_all(dir.join("ops")).unwrap();
+    // remove earlier sources (never the generated files)
+    for sub in ["schema", "ops"] {
+        if let Ok(rd) = std::fs::read_dir(dir.join(sub)) {
+            for e in rd.flatten() {
+                let n = e.file_name().to_string_lossy().to_string();
+                if n.ends_with(".graphql") { let _ = std::fs::remove_file(e.path()); }
+            }
+        }
+    }
+    for (i, f) in p.files().iter().enumerate() { std::fs::write(dir.join(format!("schema/{prefix}{i}.graphql")), format!("{lead}{f}")).unwrap(); }
+    for (i, f) in p.ops.iter().enumerate() { std::fs::write(dir.join(format!("ops/q{i}.graphql")), format!("{lead}{f}")).unwrap(); }
+    std::fs::write(dir.join("graphql.config.yaml"), p.config_yaml().replace("./schema/s", &format!("./schema/{prefix}"))).unwrap();
+}
+/// every generated file below `dir` (relative path -> bytes as text)
+fn generated_tree(dir: &Path) -> BTreeMap<String, String> {
+    fn walk(base: &Path, d: &Path, out: &mut BTreeMap<String, String>) {
+        if let Ok(rd) = std::fs::read_dir(d) {
+            for e in rd.flatten() {
+                let p = e.path();
+                if p.is_dir() { walk(base, &p, out); continue; }
+                let n = p.file_name().unwrap().to_string_lossy().to_string();
+                if n.ends_with(".ts") || n.ends_with(".map") {
+                    out.insert(p.strip_prefix(base).unwrap().to_string_lossy().to_string(), std::fs::read_to_string(&p).unwrap_or_default());
+                }
+            }
+        }
+    }
+    let mut m = BTreeMap::new();
+    walk(dir, dir, &mut m);
+    m
+}
+fn run_cli_plain(cli: &Path, dir: &Path) -> (i32, String) {
+    let o = std::process::Command::new(cli).current_dir(dir).args(["--output-format", "json", "check", "generate"]).output().expect("cli runs");
+    // the listed files carry the absolute project directory: make the listing comparable between checkouts
+    let stdout = String::from_utf8_lossy(&o.stdout).to_string();
+    let esc = serde_json::to_string(&dir.to_string_lossy().to_string()).unwrap();
+    let esc = esc.trim_matches('"').replace('/', "\\/");
+    (o.status.code().unwrap_or(-1), stdout.replace(&esc, "<root>").replace(&*dir.to_string_lossy(), "<root>"))
+}
+
 fn run_cli(cli: &Path, dir: &Path, n_ops: usize) -> Outcome {
     for f in ["out/schema.d.ts", "out/schema.d.ts.map", "out/graphql.ts", "out/resolvers.d.ts", "out/resolvers.d.ts.map"] { let _ = std::fs::remove_file(dir.join(f)); }
     for i in 0..n_ops { let _ = std::fs::remove_file(dir.join(format!("ops/q{i}.d.graphql.ts"))); let _ = std::fs::remove_file(dir.join(format!("ops/q{i}.d.graphql.ts.map"))); }
@@ -1126,6 +1172,7 @@ fn main() {
 
     // ---- 5. the real CLI in fresh processes
     let mut cli_runs = 0u64;
+    let mut preexisting_meaningful = 0u64;
     if let Some(cli) = &cli {
         let k_cli = if thorough { 20 } else { 3 };
         let n_cli = if thorough { 60 } else { 8 };
@@ -1144,6 +1191,45 @@ fn main() {
             cases.push(format!("CDet 1 {}", coq_list(&digests, |d| coq_n(*d))),
                 json!({"kind":"det-cli","runs":k_cli,"project_dir":dir.to_string_lossy(),"schema_files":p.files(),"operations":p.ops,"config":p.config_yaml(),
                        "verdict":outs[0].verdict,"digests":digests,"files_that_differ":differing,"stdout":outs[0].diagnostics[0]}));
+            // ---- 5b. pre-existing output: `generate` is a function of the project alone — what an earlier run left in
+            // the output directory must not matter.  Checkout A was generated before on P0 (= P with position-only
+            // edits: a leading comment and blank lines in every source file, schema files under other names), then its
+            // sources are replaced by P and it is generated again in a fresh process; checkout B is a clean directory.
+            if outs[0].verdict == "ok" {
+                let dir_a = root.join(format!("p{idx}-a"));
+                let dir_b = root.join(format!("p{idx}-b"));
+                let _ = std::fs::remove_dir_all(&dir_a);
+                let _ = std::fs::remove_dir_all(&dir_b);
+                write_sources(&dir_a, p, "t", "# generated by an earlier revision\n\n\n\n");
+                let a0 = run_cli_plain(cli, &dir_a);
+                let tree_a0 = generated_tree(&dir_a);
+                write_sources(&dir_a, p, "s", "\n");
+                let a1 = run_cli_plain(cli, &dir_a);
+                let tree_a = generated_tree(&dir_a);
+                write_sources(&dir_b, p, "s", "\n");
+                let _b0 = run_cli_plain(cli, &dir_b);
+                let b1 = run_cli_plain(cli, &dir_b);
+                let tree_b = generated_tree(&dir_b);
+                cli_runs += 4;
+                let keys: BTreeSet<&String> = tree_a.keys().chain(tree_b.keys()).collect();
+                let differing: Vec<&String> = keys.iter().filter(|k| tree_a.get(**k) != tree_b.get(**k)).cloned().collect();
+                // how much of the earlier revision's output differs from the final one (the stream is only meaningful if
+                // the position-only edit really changes some map while leaving the TypeScript text alone)
+                let moved_maps = tree_a0.iter().filter(|(k, v)| k.ends_with(".map") && tree_b.get(*k) != Some(v)).count();
+                let same_text = tree_a0.iter().filter(|(k, _)| !k.ends_with(".map")).all(|(k, v)| tree_b.get(k) == Some(v));
+                if moved_maps > 0 && same_text { preexisting_meaningful += 1; }
+                let dig = |t: &BTreeMap<String, String>, r: &(i32, String)| { let mut s = format!("{}\u{1}{}", r.0, r.1); for (k, v) in t { s.push_str(k); s.push('\u{2}'); s.push_str(v); s.push('\u{3}'); } fnv(&s) };
+                let (da, db) = (dig(&tree_a, &a1), dig(&tree_b, &b1));
+                let detail: Vec<serde_json::Value> = differing.iter().take(3).map(|k| json!({"file": k, "checkout_with_earlier_output": tree_a.get(*k), "clean_checkout": tree_b.get(*k)})).collect();
+                cases.push(format!("CDet 2 {}", coq_list(&[da, db], |d| coq_n(*d))),
+                    json!({"kind":"det-preexisting-output","schema_files":p.files(),"operations":p.ops,"config":p.config_yaml(),
+                           "earlier_revision":"every source file starts with one blank line (so no definition ties with the built-ins at 0:0); the earlier revision had `# generated by an earlier revision` + 3 blank lines there instead and its schema files were named t<i>.graphql",
+                           "checkout_a":dir_a.to_string_lossy(),"checkout_b":dir_b.to_string_lossy(),
+                           "exit_codes":{"a_first":a0.0,"a_second":a1.0,"b":b1.0},
+                           "listing_a":a1.1,"listing_b":b1.1,
+                           "files_that_differ":differing,"differing_contents":detail,
+                           "maps_changed_by_the_position_only_edit":moved_maps,"typescript_text_unchanged_by_it":same_text}));
+            }
             // library vs CLI
             let a = comparable(&inproc[idx]);
             let b = comparable(&outs[0]);
@@ -1159,6 +1245,7 @@ fn main() {
         }
     }
     dist.insert("cli_process_runs".into(), cli_runs);
+    dist.insert("preexisting_output_cases_where_only_maps_moved".into(), preexisting_meaningful);
 
     let n = cases.len();
     cases.write(&args.out);
